@@ -1,6 +1,7 @@
 package props
 
 import (
+	"context"
 	"crypto/sha256"
 	"errors"
 	"fmt"
@@ -605,7 +606,74 @@ func init() {
 				{Name: "concurrent_first_use", N: c.Pick(10, 100), Fn: c16ConcurrentFirstUse},
 				{Name: "tenants_overlapping", N: c.Pick(30, 300), Fn: func(r *core.Run, idx int, rng *rand.Rand) { tenantOverlap(r, "tenants_overlapping", idx, rng) }},
 				{Name: "entropy_fault", N: c.Pick(2, 10), Workers: 1, Fn: c15Entropy},
+				{Name: "after_many_failed_neighbours", N: c.Pick(4, 24), Fn: c15AfterFailures},
 			}
 		},
 	})
+}
+
+// c15AfterFailures: many requests of other sessions fail on one provider (each at one storage call of its own: the
+// signing key cannot be read, the user is unknown, the service provider lookup fails ...), several of them at the same
+// time. Afterwards the requests of healthy sessions are served as if nothing had happened: a reply depends on its own
+// request and the records it names, not on how the requests before it ended. (Each healthy request carries a generous
+// deadline, so that a provider that makes it wait for something the failed ones never gave back answers at all.)
+func c15AfterFailures(r *core.Run, idx int, rng *rand.Rand) {
+	const wl = "after_many_failed_neighbours"
+	e := env.Static(env.Opts{})
+	e.Name = fmt.Sprintf("af%d-", idx)
+	sp := stdSP(0)
+	mustRegister(e.W, sp, "appA")
+	failOp := []string{"GetResponseSigningKey", "SetUserinfoWithUserID", "GetEntityIDByAppID", "GetResponseSigningKey"}[idx%4]
+	failKind := []string{sim.FaultError, sim.FaultTimeout, sim.FaultNilRecord, sim.FaultPoolClosed}[(idx/4)%4]
+	if failOp != "GetResponseSigningKey" && failKind == sim.FaultNilRecord {
+		failKind = sim.FaultError
+	}
+	e.W.Plan = func(tag, op string, _ int) string {
+		if strings.Contains(tag, "bad") && op == failOp {
+			return failKind
+		}
+		return ""
+	}
+	nBad := 4*runtime.GOMAXPROCS(0) + 8
+	var wg sync.WaitGroup
+	for i := 0; i < nBad; i++ {
+		sc := randScenario(rng, fmt.Sprintf("MK%db%d", idx, i), false)
+		sc.Host = ""
+		sc.install(e.W)
+		wg.Add(1)
+		go func(i int, id string) {
+			defer wg.Done()
+			e.Do(env.Req{Path: env.PathLogin, Query: "id=" + url.QueryEscape(id), Tag: fmt.Sprintf("af%d-bad%d", idx, i)})
+		}(i, sc.S.ID)
+		if i%4 == 3 {
+			wg.Wait() // four at a time
+		}
+	}
+	wg.Wait()
+	r.Count("failed_neighbour_requests", int64(nBad))
+	class := fmt.Sprintf("after_failures|%s|%s", failOp, failKind)
+	for k := 0; k < 3; k++ {
+		sc := randScenario(rng, fmt.Sprintf("MK%dg%d", idx, k), false)
+		sc.Host = ""
+		sc.S.Binding = []string{spsim.BindPost, spsim.BindRedirect, spsim.BindPost}[k]
+		sc.install(e.W)
+		ctx, cancel := context.WithTimeout(context.Background(), 15*time.Second)
+		t0 := time.Now()
+		call := e.Do(env.Req{Path: env.PathLogin, Query: "id=" + url.QueryEscape(sc.S.ID), Ctx: ctx, Tag: fmt.Sprintf("af%d-good%d", idx, k)})
+		cancel()
+		r.Eval(fmt.Sprintf("%s|%d|%d", class, idx, k))
+		r.Count("healthy_requests_after_failed_neighbours", 1)
+		if call.Panic != "" || !call.D.Success() {
+			why := call.Panic
+			if why == "" {
+				why = fmt.Sprintf("status %d kind %s after %s", call.D.Status, call.D.Kind, time.Since(t0).Round(100*time.Millisecond))
+				if call.D.Msg != nil {
+					why += " " + call.D.Msg.StatusCode
+				}
+			}
+			r.Violate(core.Violation{Clause: "own_callback_failed", Class: class, Reason: fmt.Sprintf("completed session %s not answered with Success after %d requests of other sessions had failed at %s: %s", sc.S.ID, nBad, failOp, why), Workload: wl, Index: idx,
+				Case: map[string]any{"failed_neighbours": nBad, "failing_call": failOp, "fault": failKind}, Observed: call.Describe()})
+			return
+		}
+	}
 }
